@@ -4,6 +4,7 @@ import os
 from vlib import core, e2e
 from vlib import print_common as pc
 from vlib.props.C08 import model_compare
+from vlib.coord_common import first_diff
 
 MODS = ['S4V.Props.PrintSpec']
 LEVEL_NOTE = ("Proved over a byte-level model of the 8+8+4+4 print variants of printers.rs (as sequences of buffer_write_or_return!/setcolor_or_return! calls, "
@@ -123,6 +124,47 @@ def oracle_and_corr(ctx):
     return orc, res
 
 
+def oracle_multipart(ctx):
+    """Lines split across read blocks, timestamp not at column 0 (e.g. `<14>2020-…`), colour on:
+    the decorated output with the escapes (and prefixes) removed must equal the undecorated output
+    at the same block size. (Multi-part lines are outside the Lean print model; this is the
+    implementation-side property itself.)"""
+    import os
+    rng = e2e.Rng(ctx.seed * 89 + 3)
+    fails, ev = [], 0
+    for k in range(ctx.q(3, 20)):
+        lines = []
+        t = 1577836800 + rng.below(1000)
+        for i in range(rng.range(40, 120)):
+            t += rng.pick([0, 1, 1, 7])
+            pre = rng.pick([b'<14>', b'[', b'<165>1 ', b'host7 ', b''])
+            body = b' app: ' + e2e.text_line(rng, 5, 70, weird=False)
+            lines.append(pre + e2e.fmt_ts(t).replace(' ', 'T').encode() + body + b'\n')
+            if rng.chance(1, 5):
+                lines.append(b'    continuation ' + e2e.text_line(rng, 0, 90, weird=False) + b'\n')
+        data = b''.join(lines)
+        p = os.path.join(ctx.work, 'mp_%d.log' % k)
+        open(p, 'wb').write(data)
+        for bs in [64, rng.pick([65, 100, 127, 128])]:
+            base = ['-t', '+00:00', '--blocksz=%d' % bs]
+            rc0, plain, err0, _ = e2e.s4(['--color=never'] + base + [p])
+            if not plain:
+                continue          # gate rejected the file at this block size (known findings F1/F2)
+            for extra in ([], ['-n'], ['-u', '-d=%Y%m%dT%H%M%S%z']):
+                rc1, col, err1, _ = e2e.s4(['--color=always'] + base + extra + [p])
+                rc2, nocol, err2, _ = e2e.s4(['--color=never'] + base + extra + [p])
+                ev += 2
+                stripped = pc.ESC_RE.sub(b'', col)
+                if b'panicked' in err1 or rc1 not in (0, 1):
+                    fails.append({'signature': 'print:crash', 'detail': f'rc={rc1} {err1[-300:]!r}', 'case': {'args': base + extra, 'color': 'always'}, 'file_hex': data.hex()})
+                elif stripped != nocol:
+                    fails.append({'signature': 'print:colour-changes-bytes-on-multipart-lines',
+                                  'detail': f'--blocksz {bs} {extra}: ' + first_diff(stripped, nocol), 'case': {'args': base + extra}, 'file_hex': data.hex() if len(data) < 20000 else 'large'})
+        os.unlink(p)
+    return {'evaluations': ev, 'distinct_nontrivial': ev, 'failures': fails, 'samples': [],
+            'rule': 'logs whose timestamp is not at column 0, at --blocksz 64..128 (lines split across blocks): --color always with escapes removed must equal --color never, with and without prefixes'}
+
+
 def model_run_compare(ctx, reqs, impl):
     """compare only the stdout part of the `prt run` reply"""
     res = {'component': 'prt-run', 'cases': len(reqs), 'disagreements': [], 'distinct': len(set(reqs))}
@@ -160,6 +202,7 @@ def check(ctx):
     orc, corr = (None, [])
     if ok_impl and ok_drv:
         orc, corr = oracle_and_corr(ctx)
+        orc = core.merge_oracles([orc, oracle_multipart(ctx)])
     return core.decide(ctx, prove, corr, orc, LEVEL_NOTE, ASSUME)
 
 
